@@ -68,7 +68,7 @@ Definition rstab_syms : list symdef :=
 
 (** the loop over the requested names of VSsetfields, write-definition branch (vsfld.c ~116..196):
     [acc] = fields so far (reversed), [ivsize] = running record size.  The user's symbol table is searched
-    before the reserved one; sizes are checked against MAX_FIELD_SIZE only for user symbols. *)
+    before the reserved one; the field size is checked against MAX_FIELD_SIZE for user symbols, the record size for both. *)
 Fixpoint setfields_w_loop (usym : list symdef) (names : list (list Z)) (acc : list wfield) (ivsize : Z)
   : option (list wfield * Z) :=
   match names with
@@ -95,8 +95,9 @@ Fixpoint setfields_w_loop (usym : list symdef) (names : list (list Z)) (acc : li
               | Some nsz =>
                   let esize := u16 (s_order s * nsz) in
                   let isize := u16 (s_order s * s_isize s) in
-                  setfields_w_loop usym rest (mkwf (s_name s) (s_type s) isize esize (s_order s) 0 :: acc)
-                                   (u16 (ivsize + isize))
+                  let v2 := ivsize + isize in
+                  if MAX_FIELD_SIZE <? v2 then None else
+                  setfields_w_loop usym rest (mkwf (s_name s) (s_type s) isize esize (s_order s) 0 :: acc) (u16 v2)
               end
           | None => None
           end
@@ -299,6 +300,12 @@ Definition m_vswrite_lens (w : wlist) (fil uil nelt vtb : Z) : list Z * Z :=
     let p := write_plan hdf_size nelt vtb in (map (fun c => hdf_size * c) (p_chunks p), p_vtb p)
   else ([hdf_size * nelt], if vswrite_abd_grow_cond vtb (hdf_size * nelt) =? 0 then vtb else hdf_size * nelt).
 
+(** the same argument checks as [m_vswrite] in front of the length-only plan *)
+Definition m_vswrite_lens_checked (w : wlist) (fil uil nelt vtb : Z) : option (list Z * Z) :=
+  if (nelt <=? 0) || match wl_fields w with [] => true | _ => false end
+     || negb ((uil =? NO_INTERLACE) || (uil =? FULL_INTERLACE)) then None
+  else Some (m_vswrite_lens w fil uil nelt vtb).
+
 (* ---- VSread -------------------------------------------------------- *)
 
 (** place the bytes a Hread delivered at [base] *)
@@ -453,6 +460,10 @@ Definition m_vsread_lens (w : wlist) (fil uil nelt vtb : Z) : list Z * Z :=
   if negb (vsread_ec_cond (Z.of_nat (length (wl_fields w))) uil fil =? 0) then
     let p := read_plan hsize nelt vtb in (map (fun c => hsize * c) (p_chunks p), p_vtb p)
   else ([nelt * hsize], if vtb <? nelt * hsize then nelt * hsize else vtb).
+Definition m_vsread_lens_checked (w : wlist) (fil uil nelt vtb : Z) : option (list Z * Z) :=
+  if (nelt <=? 0) || match wl_fields w with [] => true | _ => false end
+     || negb ((uil =? NO_INTERLACE) || (uil =? FULL_INTERLACE)) then None
+  else Some (m_vsread_lens w fil uil nelt vtb).
 
 (* ------------------------------------------------------------------ *)
 (** * vpackvs / vunpackvs: the Vdata header record (DFTAG_VH) *)
